@@ -85,6 +85,8 @@ type Interp struct {
 	shadows   map[*Value]*shadow
 	pools     map[*Value][]Value
 	syncMaps  map[*Value]*MapV
+	atomVals  map[*Value]*Value
+	lockHeld  int // nesting depth of mutex / sync.Once critical sections
 	permCache map[string][]int
 	objIDs    map[interface{}]uint64
 	stubs     map[string]bool
@@ -1418,6 +1420,11 @@ func (in *Interp) frozenWrite(what, lbl string) {
 	fn := ""
 	if len(in.stack) > 0 {
 		fn = in.stack[len(in.stack)-1].String()
+	}
+	// a write made inside a critical section or through sync.Map / atomic.Value is synchronised:
+	// not a data race, and possibly a benign cache - the checks decide per property
+	if in.lockHeld > 0 || strings.HasPrefix(what, "sync.Map") || strings.HasPrefix(what, "atomic.Value") {
+		what = "synchronised " + what
 	}
 	in.ex.violation("frozen-write", fmt.Sprintf("%s to frozen %s in %s at %s:%d", what, lbl, fn, shortFile(pos.Filename), pos.Line), in.ex.model)
 }
